@@ -8,7 +8,12 @@ From V Require Import lib.Words spec.PrefixCode model.Stream model.MetaBlockHead
 Import ListNotations.
 Open Scope N_scope.
 
-Definition clean (s : st) : Prop := last_bytes s < 2 ^ last_bytes_bits s.
+(* pending value without bits above its length, or nothing pending and only stale bits in the second byte *)
+Definition cleanv (lb lbb : N) : Prop := (lbb = 0 /\ lb mod 256 = 0) \/ lb < 2 ^ lbb.
+Definition clean (s : st) : Prop := cleanv (last_bytes s) (last_bytes_bits s).
+Lemma cleanv_00 : cleanv 0 0. Proof. right. reflexivity. Qed.
+Lemma cleanv_nz lb lbb : cleanv lb lbb -> lbb <> 0 -> lb < 2 ^ lbb.
+Proof. intros [[H _]|H] Hn; [contradiction|exact H]. Qed.
 Definition lbits (s : st) : bits := N_to_bits (N.to_nat (last_bytes_bits s)) (last_bytes s).
 Definition wire (em : list N) (s : st) : bits := bytes_bits (em ++ pend s) ++ lbits s.
 
@@ -157,7 +162,8 @@ Lemma padding_wire em s s' : inv s -> sstate_ s = SFlushRequested -> last_bytes_
   inject_byte_padding_block s = Done s' ->
   wire em s' = wire em s ++ pad_bits (last_bytes_bits s) /\ last_bytes s' = 0 /\ last_bytes_bits s' = 0.
 Proof.
-  intros [Hc [Hp [Ht Hl]]] Hfl Hlb Hcl H.
+  intros [Hc [Hp [Ht Hl]]] Hfl Hlb Hcl0 H.
+  pose proof (cleanv_nz _ _ Hcl0 Hlb) as Hcl.
   unfold inject_byte_padding_block in H.
   destruct (seal_value (last_bytes s) (last_bytes_bits s) Hl Hcl) as [Sv Sb].
   rewrite Sv in H.
